@@ -246,7 +246,7 @@ def gen(ctx):
         Q = all_queries(n, guards=(n < 4))
         for g in acyclic_graphs(n, C.ADMG_STATES):
             i += 1
-            c = {"kind": "ipm", "g": g, "fam": fams[i % 5] if n < 4 else ("int", "bigint", "str", "tuple")[i % 4], "Q": Q, "src": "exh-ip%d" % n}
+            c = {"kind": "ipm", "g": g, "fam": fams[i % len(fams)] if n < 4 else ("int", "bigint", "str", "tuple")[i % 4], "Q": Q, "src": "exh-ip%d" % n}
             if n == 4 and i % 4:
                 c["nodec"] = True      # 4-node exhaustive part: cross-check with the brute-force decider on every 4th graph
             yield c
@@ -255,19 +255,19 @@ def gen(ctx):
         Q4 = all_queries(4)
         for g in rng.sample(gs, 700):
             i += 1
-            yield {"kind": "ipm", "g": g, "fam": fams[i % 5], "Q": rng.sample(Q4, 30), "src": "smp-ip4"}
+            yield {"kind": "ipm", "g": g, "fam": fams[i % len(fams)], "Q": rng.sample(Q4, 30), "src": "smp-ip4"}
     nmax_dm_full = 3 if tier == "quick" else 4
     for n in range(1, nmax_dm_full + 1):
         for g in acyclic_graphs(n, DAG_STATES):
             for L, S in ls_assignments(list(range(n))):
                 i += 1
-                yield {"kind": "dm", "g": g, "L": L, "S": S, "fam": fams[i % 5], "src": "exh-dm%d" % n}
+                yield {"kind": "dm", "g": g, "L": L, "S": S, "fam": fams[i % len(fams)], "src": "exh-dm%d" % n}
     if tier == "quick":
         gs = list(acyclic_graphs(4, DAG_STATES))
         for g in gs:
             for L, S in rng.sample(list(ls_assignments([0, 1, 2, 3])), 14):
                 i += 1
-                yield {"kind": "dm", "g": g, "L": L, "S": S, "fam": fams[i % 5], "src": "smp-dm4"}
+                yield {"kind": "dm", "g": g, "L": L, "S": S, "fam": fams[i % len(fams)], "src": "smp-dm4"}
     # structured random, n = 5..7 (the order-dependent incompleteness of the unfixed DFS starts at 5)
     N = 2000 if tier == "quick" else 20000
     for j in range(N):
@@ -282,7 +282,7 @@ def gen(ctx):
                            ps=rng.choice((0.0, 0.15, 0.3, 0.3)))
             Q.append([x, y, L, S])
         i += 1
-        yield {"kind": "ipm", "g": g, "fam": fams[i % 5], "Q": Q, "src": "rnd-ip%d" % n}
+        yield {"kind": "ipm", "g": g, "fam": fams[i % len(fams)], "Q": Q, "src": "rnd-ip%d" % n}
     N = 1200 if tier == "quick" else 10000
     for j in range(N):
         n = rng.choice((5, 5, 5, 6)) if tier == "quick" else rng.choice((5, 5, 6, 6, 7))
@@ -291,7 +291,7 @@ def gen(ctx):
             g = C.shuffled_graph(rng, g)
         L, S = rand_ls(rng, list(range(n)), pl=rng.choice((0.0, 0.2, 0.4, 0.6)), ps=rng.choice((0.0, 0.2, 0.4)))
         i += 1
-        yield {"kind": "dm", "g": g, "L": L, "S": S, "fam": fams[i % 5], "src": "rnd-dm%d" % n}
+        yield {"kind": "dm", "g": g, "L": L, "S": S, "fam": fams[i % len(fams)], "src": "rnd-dm%d" % n}
 
 
 # ----------------------------------------------------------------------------- run
